@@ -107,6 +107,9 @@ pub struct Cfg {
     /// Start a second instance on the same store after the first one has ended (for any reason).
     #[serde(default)]
     pub restart: bool,
+    /// Free-form per-configuration parameter for harnesses that bring their own agent.
+    #[serde(default)]
+    pub extra: String,
 }
 
 impl Cfg {
@@ -129,6 +132,7 @@ impl Cfg {
             crash_at: None,
             store_fault: None,
             restart: false,
+            extra: String::new(),
         }
     }
 }
@@ -277,6 +281,19 @@ pub fn set_checker(c: Checker) {
     let _ = GLOBAL_CHECKER.set(c);
 }
 
+/// Global hook to substitute the agent under test: given the configuration and the execution's
+/// ground truth log, build the agent (default: `TestAgent` with `TestLifecycle`).
+pub type AgentFactory = fn(&Cfg, Arc<TruthLog>) -> swimos_api::agent::BoxAgent;
+static GLOBAL_AGENT: std::sync::OnceLock<AgentFactory> = std::sync::OnceLock::new();
+pub fn set_agent_factory(f: AgentFactory) {
+    let _ = GLOBAL_AGENT.set(f);
+}
+
+fn default_agent(_: &Cfg, truth: Arc<TruthLog>) -> swimos_api::agent::BoxAgent {
+    let lifecycle = TestLifecycle { log: truth };
+    Box::new(AgentModel::new(TestAgent::default, lifecycle.into_lifecycle()))
+}
+
 /// Global hook to build the persistence for an execution (set by the C05 check).
 pub type StoreFactory = fn(&Cfg) -> Option<(RecStore, Arc<StoreLog>)>;
 static GLOBAL_STORE: std::sync::OnceLock<StoreFactory> = std::sync::OnceLock::new();
@@ -419,8 +436,7 @@ impl AsWorld {
         self.pending_link = None;
         let truth = Arc::new(TruthLog::default());
         truth.step.store(self.step, Ordering::SeqCst);
-        let lifecycle = TestLifecycle { log: truth.clone() };
-        let model = AgentModel::new(TestAgent::default, lifecycle.into_lifecycle());
+        let model = GLOBAL_AGENT.get().copied().unwrap_or(default_agent)(&self.cfg, truth.clone());
         let (att_tx, att_rx) = mpsc::channel(16);
         let (http_tx, http_rx) = mpsc::channel(4);
         let (link_tx, link_rx) = mpsc::channel(16);
@@ -445,8 +461,7 @@ impl World for AsWorld {
 
     fn new(cfg: &Cfg, trace: bool) -> Self {
         let truth = Arc::new(TruthLog::default());
-        let lifecycle = TestLifecycle { log: truth.clone() };
-        let model = AgentModel::new(TestAgent::default, lifecycle.into_lifecycle());
+        let model = GLOBAL_AGENT.get().copied().unwrap_or(default_agent)(cfg, truth.clone());
         let (att_tx, att_rx) = mpsc::channel(16);
         let (http_tx, http_rx) = mpsc::channel(4);
         let (link_tx, link_rx) = mpsc::channel(16);
